@@ -114,3 +114,14 @@ def subst_ret(atom, ret):
     if atom[0] in ("imp", "and"):
         return (atom[0],) + tuple(subst_ret(x, ret) for x in atom[1:])
     return (atom[0],) + tuple(map_term(x, f) if is_term(x) else x for x in atom[1:])
+
+
+def returns_of(an: Analysis):
+    """(node, returned term, state after evaluating the return expression) for every reachable return."""
+    for node in an.cfg.nodes:
+        if node.kind != "return" or node.id not in an.IN:
+            continue
+        st = an.IN[node.id]
+        nf: List = []
+        ret = an.ev(node.ast.value, st, node, [0], nf)
+        yield node, ret, st.with_facts(nf)
